@@ -42,6 +42,9 @@ pub fn run(v: &serde_json::Value, rep: &mut Report) -> Result<(), String> {
     let mut level = PriceLevel::new(price);
     let mut twin: Option<(PriceLevel, UuidGenerator)> = None; // restored copy run in lock-step (C11)
     let generator = UuidGenerator::new(ns);
+    // executable form of the PROVED queue contracts (pop = head of prio, push appends a ticket, remove leaves
+    // tickets alone): the ticket list is modelled, the live orders are read back from the real level
+    let mut tickets: std::collections::VecDeque<OrderId> = std::collections::VecDeque::new();
     let mut ob = Obs { price, seq: HashMap::new(), next_seq: 0, supplied: HashMap::new(), filled: HashMap::new(), tx_ids: HashSet::new(), adds: 0, removes: 0, qty_exec: 0, val_exec: 0 };
     for (step, op) in ops.iter().enumerate() {
         let name = op.get("op").and_then(|x| x.as_str()).ok_or("op without name")?;
@@ -54,6 +57,7 @@ pub fn run(v: &serde_json::Value, rep: &mut Report) -> Result<(), String> {
                 let o = build_order(&jo)?;
                 if pre.contains_key(&o.id()) { return Err(format!("step {step}: precondition (ids unique among resting orders) violated by the replay file")); }
                 level.add_order(o);
+                tickets.push_back(o.id());
                 if let Some((t, _)) = &twin { t.add_order(o); }
                 ob.seq.insert(o.id(), ob.next_seq); ob.next_seq += 1;
                 ob.supplied.insert(o.id(), o.visible_quantity() as u128 + o.hidden_quantity() as u128);
@@ -64,8 +68,28 @@ pub fn run(v: &serde_json::Value, rep: &mut Report) -> Result<(), String> {
                 let qty = g("qty").ok_or("match without qty")?;
                 let taker = oid(g("taker").unwrap_or(999_000 + step as u64));
                 let pre_vis_sum: u128 = pre.values().map(|o| o.visible_quantity() as u128).sum();
+                // prediction from the ticket model (uses the real match_against for quantities)
+                let mut expected: Vec<(OrderId, u64)> = vec![];
+                {
+                    let mut live = pre.clone();
+                    let mut remaining = qty;
+                    let mut aside: Vec<O> = vec![];
+                    while remaining > 0 {
+                        let Some(id) = tickets.pop_front() else { break };
+                        let Some(o) = live.remove(&id) else { continue };
+                        let (c, u, hr, rem) = o.match_against(remaining);
+                        if c > 0 { expected.push((id, c)); }
+                        remaining = rem;
+                        if let Some(u) = u { if c == 0 && hr == 0 { aside.push(u); } else { live.insert(id, u); tickets.push_back(id); } }
+                    }
+                    for u in aside { tickets.push_back(u.id()); }
+                }
                 let r = level.match_order(qty, taker, &generator);
                 let post = listing(&level);
+                {
+                    let got: Vec<(OrderId, u64)> = r.transactions.as_vec().iter().map(|t| (t.maker_order_id, t.quantity)).collect();
+                    if got != expected { rep.violation("C04", "match_order.follows_ticket_order", format!("step={step} makers {got:?} but the queue discipline (pop = earliest live ticket, re-queue at the back) gives {expected:?}")); }
+                }
                 let txs = r.transactions.as_vec().clone();
                 let exec: u128 = txs.iter().map(|t| t.quantity as u128).sum();
                 if exec + r.remaining_quantity as u128 != qty as u128 { rep.violation("C02", "match_order.executed_plus_remaining", format!("step={step} requested={qty} executed={exec} remaining={}", r.remaining_quantity)); }
@@ -160,6 +184,7 @@ pub fn run(v: &serde_json::Value, rep: &mut Report) -> Result<(), String> {
                             if post != want { rep.violation("C07", "update_order.amend_leaves_others", format!("step={step}")); }
                             let f = ob.filled.get(&id).copied().unwrap_or(0);
                             ob.supplied.insert(id, f + n.visible_quantity() as u128 + n.hidden_quantity() as u128);
+                            tickets.push_back(id);
                         }
                         other => rep.violation("C07", "update_order.amend_returns_resting_order", format!("step={step} got {other:?}")),
                     }
@@ -170,9 +195,10 @@ pub fn run(v: &serde_json::Value, rep: &mut Report) -> Result<(), String> {
                 let restored = PriceLevel::from_snapshot(snap).map_err(|e| format!("restore failed: {e}"))?;
                 let a = listing(&level); let b = listing(&restored);
                 if a != b || restored.price() != level.price() || restored.visible_quantity() != level.visible_quantity() || restored.hidden_quantity() != level.hidden_quantity() || restored.order_count() != level.order_count() {
-                    rep.violation("C10", "restore.same_content", format!("step={step}"));
+                    rep.violation("C10", "restore.same_content", format!("step={step}: restored level lists {} orders / aggregates ({}, {}, {}), original {} / ({}, {}, {})", b.len(), restored.visible_quantity(), restored.hidden_quantity(), restored.order_count(), a.len(), level.visible_quantity(), level.hidden_quantity(), level.order_count()));
+                    rep.violation("C11", "restore.same_content", format!("step={step}: the restored level does not hold the same orders as the original"));
                 }
-                if name == "restore" { level = restored; } else { twin = Some((restored, UuidGenerator::new(ns))); }
+                if name == "restore" { tickets = level.iter_orders().iter().map(|o| o.id()).collect(); level = restored; } else { twin = Some((restored, UuidGenerator::new(ns))); }
             }
             "read" => {
                 let _ = (level.price(), level.visible_quantity(), level.hidden_quantity(), level.total_quantity(), level.order_count());
